@@ -1,0 +1,12 @@
+//go:build !verif
+// +build !verif
+
+// Package verifhook holds verification hooks. Without the build tag "verif"
+// every hook is an empty function.
+package verifhook
+
+// BeforeWrite is called immediately before a durable write.
+func BeforeWrite(site string) error { return nil }
+
+// Point marks a place between two critical sections.
+func Point(site string) {}
